@@ -577,7 +577,7 @@ pub fn generate(rng: &mut Rng, tier: Tier, frames: bool) -> Scn {
         .sum::<u64>()
         * guest.handlers.iter().map(|h| handler_cost(&h.kind)).max().unwrap_or(2)
         * 2;
-    let cfg = SysCfg { wait_start: false, clock: gen_clock_model(rng), clock_seed: rng.next_u64(), step_cap: (est + handler_budget) * 6 + 20_000 + if timer_irqs { 200_000 } else { 0 } };
+    let cfg = SysCfg { wait_start: false, clock: gen_clock_model(rng), clock_seed: rng.next_u64(), step_cap: (est + handler_budget) * 6 + 20_000 + if timer_irqs { 200_000 } else { 0 }, print_msgs: rng.chance(1, 16) };
     Scn { guest, events, cfg, timer_irqs }
 }
 
